@@ -10,9 +10,12 @@
 //                                   whole-API workload repeated <reps> times: allocate everything (small, medium,
 //                                   large, huge, aligned-huge, from a second thread that exits), free everything,
 //                                   mi_collect(true).  config 0: arenas enabled, 1: disallow_arena_alloc,
-//                                   2: tiny arena_reserve (32 MiB).  big=1 adds allocations above 64 MiB (more
+//                                   2: tiny arena_reserve (32 MiB), 3: arena_eager_commit=0, 4: arena_eager_commit=0 and
+//                                   eager_commit=0 (segments returned partially committed).  big=1 adds allocations above 64 MiB (more
 //                                   than two arena blocks: known finding huge-alloc-reserves-arena).
 //                                   T rep records: ledger totals after each repetition.
+//   t_osfree D <seed>               thread metadata under OS refusals: mi_thread_data_zalloc with the first / second / both mmap
+//                                   attempts refused, then mi_thread_data_free + _mi_thread_data_collect (T td records).
 #include REPO_STATIC
 #include <stdio.h>
 #include <stdlib.h>
